@@ -24,6 +24,16 @@ def run(ctx):
     V.v4_parameter_translation(ctx)
     V.v6_derived_constructors(ctx)
     V.v8_queries_do_not_mutate_constructor_state(ctx)
+    U.u7_parameter_ranges(ctx)
+    ctx.floor("U7", 3)
+    # the sampled parts are put together by the backward maps of the derived rule forms
+    from ..engines import mapplumbing as M
+    M.m1_equivalence_rule(ctx)
+    M.m2_reverse_rule(ctx)
+    M.m3_path_rule(ctx)
+    ctx.floor("M1", 4)
+    ctx.floor("M2", 5)
+    ctx.floor("M3", 3)
     ctx.floor("V4", 4)
     ctx.floor("V6", 8)
     ctx.floor("V8", 1)
